@@ -549,6 +549,33 @@ func c18Run(c *Ctx) {
 				run(&elemCase{expCase: expCase{built: *b2, Spec: g2}, Calls: []call{{Fn: "ExpandSchemaWithBasePath", Elem: e}}, CacheKind: "mem", Preload: ext})
 				run(&elemCase{expCase: expCase{built: *b2, Spec: g2}, Calls: []call{{Fn: "ExpandSchemaWithBasePath", Elem: e}}})
 			}
+			// ... and through a file: URL that carries a query
+			g6 := g.clone()
+			for k := range g6.Edges {
+				if g6.Place[g6.Edges[k].From] == 0 && g6.Place[g6.Edges[k].To] != 0 {
+					g6.Edges[k].Spell = spAbsQuery
+				}
+			}
+			b6 := g6.build()
+			run(&elemCase{expCase: expCase{built: *b6, Spec: g6}, Calls: []call{{Fn: "ExpandSpec"}}})
+			for _, e := range schemas {
+				run(&elemCase{expCase: expCase{built: *b6, Spec: g6}, Calls: []call{{Fn: "ExpandSchemaWithBasePath", Elem: e}}, CacheKind: "mem", Preload: ext})
+			}
+			// a referenced document whose top level is an array
+			if g.N == 2 && g.Place[1] != 0 {
+				g7 := g.clone()
+				g7.Shape[1] = 4
+				b7 := g7.build()
+				run(&elemCase{expCase: expCase{built: *b7, Spec: g7}, Calls: []call{{Fn: "ExpandSpec"}}})
+				for _, e := range schemas {
+					if _, ok := ptrGet(mustParse(string(b7.Docs[b7.Root])), e); !ok {
+						continue
+					}
+					cl := call{Fn: "ExpandSchemaWithBasePath", Elem: e}
+					run(&elemCase{expCase: expCase{built: *b7, Spec: g7}, Calls: []call{cl, cl}, CacheKind: "mem"})
+					run(&elemCase{expCase: expCase{built: *b7, Spec: g7}, Calls: []call{cl}, CacheKind: "lib", Preload: []string{g7.nodeDocURL(1)}})
+				}
+			}
 			g3 := g.clone()
 			g3.EntrySpell = spAbsDetour
 			b3 := g3.build()
